@@ -52,6 +52,12 @@ proof { lemma_map_sum_insert(old(self).partitions@, psize::<K2, V>(), partition_
     assert forall|k: K2| partition.records@.contains_key(k) implies exists|j: int| 0 <= j < rk.len() && rk[j] == k by {
         assert(rk.contains(k));
     }
+    assert forall|k: K2| partition.records@.contains_key(k) implies distinct_seq(#[trigger] partition.records@[k]@) by {
+        assert(rk.contains(k));
+        let j = choose|j: int| 0 <= j < rk.len() && rk[j] == k;
+        assert(partition.records@[rk[j]]@ == p0.records@[rk[j]]@.filter(unexp::<V>(now)));
+        lemma_filter_distinct(p0.records@[k]@, unexp::<V>(now));
+    }
     // the tuple that attained next_expiry was due, hence removed: at least one record was pruned
     let (ka, ia) = choose|k: K2, i: int| #[trigger] has_tuple(p0.records@, k, i) && inst(p0.next_expiry) == inst(p0.records@[k]@[i].1);
     assert(rk.contains(ka));
